@@ -94,6 +94,12 @@ func (r *runner) expired() bool {
 	if r.stop {
 		return true
 	}
+	if hungRuns > 0 {
+		r.stop = true
+		r.rep.Exhaustive = false
+		r.rep.Note("a Run() call did not return; the worker stopped its enumeration there")
+		return true
+	}
 	if !r.deadline.IsZero() && time.Now().After(r.deadline) {
 		r.stop = true
 		r.rep.Exhaustive = false
@@ -103,6 +109,9 @@ func (r *runner) expired() bool {
 }
 
 func (r *runner) run(b *Battle) {
+	if hungRuns > 0 {
+		return
+	}
 	r.ck.Check(b)
 	r.last = b
 }
@@ -266,6 +275,7 @@ func Run(rep *hx.Report, props Props, tier string, sh hx.Shard, deadline time.Ti
 	full := [][2]uint64{{M, M}}
 	switch {
 	case props.C02:
+		r.longRuns(M)
 		if thorough {
 			// other core sizes (odd, and one where programs cannot reach each other at once)
 			for _, m2 := range []uint64{5, 13} {
@@ -283,7 +293,7 @@ func Run(rep *hx.Report, props Props, tier string, sh hx.Shard, deadline time.Ti
 			r.pairs(M, Programs(alpha, 10, 2), []uint64{5, 6, 7, 9, 17}, []uint64{40}, full, false)
 			r.pairs(M, Programs(alpha, 10, 2), []uint64{2}, []uint64{24}, [][2]uint64{{3, 4}, {4, 3}, {1, 8}, {8, 2}, {5, 5}}, false)
 		} else {
-			rep.Bound = "M=8: all programs of length 1..2 over 16 letters alone; all ordered pairs of them x offsets 1..7 x P 1..3 x cycle limit 16; all ordered pairs over 8 letters x every entry point x cycle limits 1..4 at P=2; all triples over 10 letters x all offset pairs at P in {1,2}; all quadruples over 6 letters; all ordered pairs over 7 letters with process limits 5, 6, 9"
+			rep.Bound = "five long runs (300 and 70000 cycles, 300 / 257 / 70000 processes); M=8: all programs of length 1..2 over 16 letters alone; all ordered pairs of them x offsets 1..7 x P 1..3 x cycle limit 16; all ordered pairs over 8 letters x every entry point x cycle limits 1..4 at P=2; all triples over 10 letters x all offset pairs at P in {1,2}; all quadruples over 6 letters; all ordered pairs over 7 letters with process limits 5, 6, 9"
 			p2 := Programs(alpha, 16, 2)
 			r.singles(M, p2, full, 16)
 			r.pairs(M, p2, []uint64{1, 2, 3}, []uint64{16}, full, false)
@@ -294,6 +304,17 @@ func Run(rep *hx.Report, props Props, tier string, sh hx.Shard, deadline time.Ti
 			r.pairs(M, Programs(alpha, 7, 2), []uint64{5, 6, 9}, []uint64{24}, full, false)
 		}
 	case props.C12:
+		if sh.I == 0 {
+			// a core above 2^16 cells: the generic rotations cover every shift only for tiny cores
+			m := uint64(70001)
+			al := Alphabet(m)
+			for _, p := range [][]g.Instruction{{al[3]}, {al[8], al[5]}, {al[4], al[4]}, {al[7], al[0]}} {
+				for _, off := range []uint64{0, 65535, 65536, 69999, 70000} {
+					b := &Battle{M: m, R: m, W: m, P: 3, C: 12, ResetAt: -1, Ws: []WSpec{{p, len(p) - 1, off}, {[]g.Instruction{al[2]}, 0, off + 35000}}}
+					r.ck.bigRotation(b, []uint64{1, 65535, 65536, 65537, m - 1, m, m + 1, 3*m + 7})
+				}
+			}
+		}
 		for _, m := range []uint64{8, 5} {
 			al := Alphabet(m)
 			lims := [][2]uint64{{m, m}, {3, 4}}
@@ -367,6 +388,25 @@ func (r *runner) bigOffsets(M uint64, progs [][]g.Instruction) {
 		}
 		for _, off := range []uint64{M, M + 3, 2*M + 7, 5 * M} {
 			r.run(&Battle{M: M, R: M, W: M, P: 2, C: 8, ResetAt: -1, Ws: []WSpec{{p, len(p) - 1, off}, {imp, 0, off + 4}}})
+		}
+	}
+	r.sample()
+}
+
+// longRuns: cycle counts and process counts beyond 8 and 16 bits.
+func (r *runner) longRuns(M uint64) {
+	al := Alphabet(M)
+	imp, ring0, ring1, sit, dat := []g.Instruction{al[3]}, []g.Instruction{al[1], al[5]}, []g.Instruction{al[6], al[5]}, []g.Instruction{al[2]}, []g.Instruction{al[0]}
+	cases := []*Battle{
+		{M: M, R: M, W: M, P: 2, C: 300, ResetAt: -1, Ws: []WSpec{{imp, 0, 0}}},
+		{M: M, R: M, W: M, P: 2, C: 70000, ResetAt: -1, Ws: []WSpec{{imp, 0, 0}, {sit, 0, 4}}},
+		{M: M, R: M, W: M, P: 300, C: 700, ResetAt: -1, Ws: []WSpec{{ring0, 0, 0}, {sit, 0, 4}}},
+		{M: M, R: M, W: M, P: 70000, C: 150000, ResetAt: -1, Ws: []WSpec{{ring0, 0, 0}}},
+		{M: M, R: M, W: M, P: 257, C: 66000, ResetAt: -1, Ws: []WSpec{{ring1, 0, 0}, {imp, 0, 5}, {dat, 0, 3}}},
+	}
+	for i, b := range cases {
+		if r.sh.Mine(i) && !r.expired() {
+			r.run(b)
 		}
 	}
 	r.sample()
